@@ -388,3 +388,19 @@ Theorem C18_history_honours_data :
     heval Rops K s = map Some (h_cond s).
 Proof. exact history_honours_data. Qed.
 Print Assumptions C18_history_honours_data.
+
+(* Krige.get_mean(post_process=True) = denormalize (raw mean + mean) (raw mean = 0 for simple kriging, the estimate of the
+   kriging system for ordinary kriging); a field evaluated with only_mean=True is that value plus the trend, for every number
+   type; at R the value normalizes back to raw mean + mean on the denormalize range *)
+Theorem C18_only_mean_is_get_mean_plus_trend :
+  forall (T : Type) (O : NumOps T) (k : nkind) (p : npar T) (m t rawm : T),
+    apply_pt O k p m t rawm = option_map (fun v => nadd O v t) (get_mean O k p m rawm).
+Proof. exact @only_mean_is_get_mean_plus_trend. Qed.
+Print Assumptions C18_only_mean_is_get_mean_plus_trend.
+
+Theorem C18_get_mean_roundtrip :
+  forall (k : nkind) (p : npar R) (m rawm : R), in_range Rops (denorm_range Rops k p) (rawm + m) = true ->
+    get_mean Rops k p m rawm = Some (denormalize_raw Rops k p (rawm + m)) /\
+    normalize Rops k p (denormalize_raw Rops k p (rawm + m)) = Some (rawm + m).
+Proof. exact get_mean_roundtrip. Qed.
+Print Assumptions C18_get_mean_roundtrip.
